@@ -333,7 +333,7 @@ def dp_vcs(ctx=None):
             return I.call(F.edit_distance, [ref, hyp], kw)
 
         def pe_at(f, k, jj, CAP=CAP):
-            pe = f.locals["prefix_ers"]
+            pe = ip.local(f, "prefix_ers")
             return z3.Implies(z3.And(0 <= jj, jj <= k), ip.to_z3(pe.elem(jj, N0)) == D(N0, RL0, mn(jj, CAP)))
 
         def pe_inv(f, k):  # prefix mode: FORALL j <= k. prefix_ers[j, n0] = D(n0, ref_len, min(j, cap))
@@ -343,16 +343,16 @@ def dp_vcs(ctx=None):
             return z3.Implies(z3.And(0 <= rr, rr <= R), ip.to_z3(row.elem(rr, N0)) == D(N0, rr, jj))
 
         def hyp_inv(I, f, k, CAP=CAP):  # FORALL r at the skolem batch element
-            row = f.locals["row"]
+            row = ip.local(f, "row")
             return z3.ForAll([r], row_at(row, r, mn(k, CAP)))
 
         class DPLoop(LoopSpec):
             def run(self, I, s, f, prefix=prefix, CAP=CAP, LAST=LAST, ROWS=ROWS, SPEC_AT=None):
                 SPEC_AT = self.spec_at
-                row0 = f.locals["row"]
+                row0 = ip.local(f, "row")
                 at = lambda row, rr, jj: ip.to_z3(row.elem(rr, N0)) == D(N0, rr, jj)
                 # the lengths the loop works with are the spec lengths
-                same = z3.And(ip.to_z3(f.locals["hyp_lens"].elem(N0)) == HL0, ip.to_z3(f.locals["ref_lens"].elem(N0)) == RL0)
+                same = z3.And(ip.to_z3(ip.local(f, "hyp_lens").elem(N0)) == HL0, ip.to_z3(ip.local(f, "ref_lens").elem(N0)) == RL0)
                 I.ex.oblige("dp.lengths_are_spec_lengths", same)
                 I.ex.assume(same)  # proved just above as its own obligation; stated as a fact for the obligations that follow
                 # initialisation, by induction over r  (instances: the definition of D at the cells involved, lin recurrences)
@@ -367,8 +367,8 @@ def dp_vcs(ctx=None):
                     # the conclusion of the induction just proved (base + step), then the first prefix row (when there is one)
                     I.ex.assume(z3.ForAll([r], row_at(row0, r, z3.IntVal(0))))
                     I.ex.instance(row_at(row0, RL0, z3.IntVal(0)))
-                    I.ex.oblige("dp.prefix.rows", ip.to_z3(f.locals["prefix_ers"].shape[0]) == ROWS)
-                    I.ex.oblige("dp.prefix.init", z3.Implies(ROWS >= 1, ip.to_z3(f.locals["prefix_ers"].elem(z3.IntVal(0), N0)) == D(N0, RL0, 0)))
+                    I.ex.oblige("dp.prefix.rows", ip.to_z3(ip.local(f, "prefix_ers").shape[0]) == ROWS)
+                    I.ex.oblige("dp.prefix.init", z3.Implies(ROWS >= 1, ip.to_z3(ip.local(f, "prefix_ers").elem(z3.IntVal(0), N0)) == D(N0, RL0, 0)))
                     PE = stn._fresh("prefix_ers", z3.IntSort(), z3.IntSort(), z3.RealSort())
                     f.locals["prefix_ers"] = stn.ST((ROWS, N), lambda a, b: PE(ip.to_z3(a), ip.to_z3(b)), "float")
                 ROW = stn._fresh("row", z3.IntSort(), z3.IntSort(), z3.RealSort())
@@ -377,7 +377,7 @@ def dp_vcs(ctx=None):
                     k = I.ex.fresh("int", "iter")
                     I.ex.assume(z3.And(0 <= k, k < LAST))
                     I.ex.assume(hyp_inv(I, f, k))
-                    rowk = f.locals["row"]
+                    rowk = ip.local(f, "row")
                     for rr in (R0, R0 - 1, z3.IntVal(0)):  # FORALL-elimination: the cells the step obligations read
                         I.ex.instance(row_at(rowk, rr, mn(k, CAP)))
                     if prefix:
@@ -388,7 +388,7 @@ def dp_vcs(ctx=None):
                     I.assign(s.target, k + 1, f)
                     n_min = len(I.ex.ghost.get("mins", []))
                     I.exec_block(s.body, f)
-                    row1 = f.locals["row"]
+                    row1 = ip.local(f, "row")
                     jn = mn(k + 1, CAP)
                     # instances for the step: definition of D at the cells (R0, jn), (0, jn); the min(1) contract of the vectorised
                     # deletion step at reference positions R0, R0 - 1 and 0 (lower bounds at the positions the proof compares,
@@ -409,10 +409,10 @@ def dp_vcs(ctx=None):
                     if prefix:
                         I.ex.assume(z3.ForAll([r], row_at(row1, r, jn)))  # conclusion of the induction over r
                         I.ex.instance(row_at(row1, RL0, jn))
-                        I.ex.oblige("dp.prefix.step", z3.Implies(z3.And(0 <= J0, J0 <= k + 1), ip.to_z3(f.locals["prefix_ers"].elem(J0, N0)) == D(N0, RL0, mn(J0, CAP))))
+                        I.ex.oblige("dp.prefix.step", z3.Implies(z3.And(0 <= J0, J0 <= k + 1), ip.to_z3(ip.local(f, "prefix_ers").elem(J0, N0)) == D(N0, RL0, mn(J0, CAP))))
                     raise PathAbort()
                 I.ex.assume(hyp_inv(I, f, LAST))
-                I.ex.instance(row_at(f.locals["row"], RL0, mn(LAST, CAP)))
+                I.ex.instance(row_at(ip.local(f, "row"), RL0, mn(LAST, CAP)))
                 if prefix:
                     I.ex.assume(pe_inv(f, LAST))
                     I.ex.instance(pe_at(f, LAST, J0))
